@@ -231,7 +231,7 @@ def run_shard(spec, ctx):
         ast = progs.gen_program(rng, depth=depth, maxn=rng.choice((2, 4, 7)),
                                 sugar=rng.random() < 0.7)
         try:
-            ref = asm.assemble(ast)
+            ref = asm.assemble_program(ast)
         except asm.AsmError:
             ctx.count('skipped.block_too_large')
             continue
